@@ -540,7 +540,9 @@ def values(ctx):
                     ctx.na(rule, f.site, f"origin of key `{ast.unparse(key)}` not understood")
                     continue
                 ctx.ob(rule, f.site, ok, msg, role="regref-key", line=st.lineno)
-    ctx.require(n_found >= 1, "BaseEngine._run no longer copies measured values into reg_refs[...].val")
+    if n_found < 1:
+        ctx.ob(rule, f.site, False, "BaseEngine._run no longer copies the measured values of the previous segment into reg_refs[...].val: "
+               "feed-forward across programs reads nothing", role="regref-key", line=f.node.lineno)
     ctx.floor(rule, 1)
 
 
